@@ -318,6 +318,27 @@ pub fn run(tier: &str) -> Result<Report, String> {
             }
         }
     }
+    // literal sub-family: the constants true / false as operands of every binary operator, on either side,
+    // with a plain variable, a negated one and a term with an uninterpreted function as the other operand
+    {
+        let vars: Vec<String> = vec!["a".into(), "b".into()];
+        let regs: Vec<Reg> = vec![Reg { src: 0, dst: 0, sign: Sign::Unk, observable: false }, Reg { src: 1, dst: 0, sign: Sign::Unk, observable: false }, Reg { src: 1, dst: 1, sign: Sign::Unk, observable: false }];
+        let others = [Expr::Var(0), Expr::not(Expr::Var(1)), Expr::bin('&', Expr::Var(0), Expr::Call("f".into(), vec![1])), Expr::bin('|', Expr::Call("f".into(), vec![0]), Expr::Var(1))];
+        for op in ['&', '|', '^', '>', '='] {
+            for c in [true, false] {
+                for o in &others {
+                    for left in [true, false] {
+                        let e = if left { Expr::bin(op, Expr::Const(c), o.clone()) } else { Expr::bin(op, o.clone(), Expr::Const(c)) };
+                        // make both variables occur (declared regulators)
+                        let f0 = Expr::bin('|', e.clone(), Expr::bin('&', Expr::Var(0), Expr::Var(1)));
+                        for f in [e, f0, Expr::not(Expr::bin(op, Expr::Const(c), Expr::bin('^', Expr::Var(0), Expr::Var(1))))] {
+                            arg_specs.push(NetSpec { vars: vars.clone(), regs: regs.clone(), funcs: vec![Some(f), Some(Expr::Var(1))] });
+                        }
+                    }
+                }
+            }
+        }
+    }
     let arg_specs: Vec<NetSpec> = arg_specs.into_iter().filter(|s| s.well_formed()).collect();
     rep.set("argument_list_networks", json!(arg_specs.len()));
     specs.extend(arg_specs);
@@ -353,7 +374,7 @@ pub fn run(tier: &str) -> Result<Report, String> {
     rep.set("networks_accepted_by_the_library", json!(accepted));
     rep.sample(json!({"aeon": specs[specs.len() / 2].to_aeon()}));
     rep.sample(json!({"aeon": "a -?? b\nb -?? b\n$b: f(a) | h\n", "oracle": "as the fresh inputs range over all values, b's output function must range over exactly the 2 * 4 instantiations of f(a) | h"}));
-    rep.rule = "every network with 1..3 variables a,b,c whose variables each take one item of a menu (no regulator/no function; constants; zero-arity h; implicit function over 1, 2 (3) regulators; !x, x, x^y, x|!y; f(x); f(x)|h; g(x)&!f(x); k(x,y); k(y,x); f(x)&g(y); f(x)|f(y); k(x,y)&!k(y,x); f(!x); f(x)&f(!x); k(!x,y)|k(x,y); f(x)^(f(x)&h); f(y)=>(x&h); ...; unconstrained and, for n<=2, constrained regulations; symbols shared between variables) that is well formed and accepted by the library, plus a name-clash sub-family (a variable named like a generated input) and an argument-list sub-family (a symbol of arity 2 / 3 applied to every argument list over the variables, repetitions included, alone and in every ordered pair m(args1) & !m(args2)). The convert-aeon-to-bnet binary built from the working tree is run on the aeon text; its output is re-loaded as bnet; for every target the set of truth tables over the original variables under all valuations of the fresh inputs must equal the set of truth tables of all instantiations of the input function (constraints dropped); targets = variables with a regulator or function; fresh inputs are no targets. distinct_nontrivial = networks accepted by the library".into();
+    rep.rule = "every network with 1..3 variables a,b,c whose variables each take one item of a menu (no regulator/no function; constants; zero-arity h; implicit function over 1, 2 (3) regulators; !x, x, x^y, x|!y; f(x); f(x)|h; g(x)&!f(x); k(x,y); k(y,x); f(x)&g(y); f(x)|f(y); k(x,y)&!k(y,x); f(!x); f(x)&f(!x); k(!x,y)|k(x,y); f(x)^(f(x)&h); f(y)=>(x&h); ...; unconstrained and, for n<=2, constrained regulations; symbols shared between variables) that is well formed and accepted by the library, plus a name-clash sub-family (a variable named like a generated input) and an argument-list sub-family (a symbol of arity 2 / 3 applied to every argument list over the variables, repetitions included, alone and in every ordered pair m(args1) & !m(args2)) and a literal sub-family (true / false as left / right operand of every binary operator next to a variable, a negated variable and terms with an uninterpreted function). The convert-aeon-to-bnet binary built from the working tree is run on the aeon text; its output is re-loaded as bnet; for every target the set of truth tables over the original variables under all valuations of the fresh inputs must equal the set of truth tables of all instantiations of the input function (constraints dropped); targets = variables with a regulator or function; fresh inputs are no targets. distinct_nontrivial = networks accepted by the library".into();
     rep.assumptions.push("biodivine-lib-param-bn's bnet parser is trusted for reading the converter's output; truth tables are evaluated by the harness's own evaluator".into());
     Ok(rep)
 }
